@@ -42,8 +42,10 @@ def _one(args):
             pr = mo["per_ratio"][rq]
             sig0 = {"moment": kind, "control": hc, "ratio_is_one": ratio[0] == ratio[1]}
             detail = {**detail0, "moment": kind, "ratio": ratio}
+            slack = M.SLACKS[(hash(json.dumps(case["rows"])) + rq + len(kind)) % len(M.SLACKS)]        # the configured slack rotates, 0.0 included
+            detail["slack"] = slack
             try:
-                m = M.load(M.make_moment(kind, ratio), d, hc)
+                m = M.load(M.make_moment(kind, ratio, slack), d, hc)
             except Exception as e:
                 out.append(({"api": "load_data", "kind": "exception", **sig0}, f"{kind}.load_data raised {e!r}", detail))
                 continue
@@ -83,8 +85,8 @@ def _one(args):
                                     f"{kind} r={ratio} gamma{key} = {got[key]!r}, specification {ev} for predictions {hpos}", detail))
                         break
             b = m.bound()
-            if not all(abs(b[k] - M.EPS) < 1e-15 for k in exp_keys) or len(b) != len(exp_keys):
-                out.append(({"api": "bound", "kind": "value", **sig0}, f"bound() = {dict(b)}", detail))
+            if not all(abs(b[k] - slack) < 1e-15 for k in exp_keys) or len(b) != len(exp_keys):
+                out.append(({"api": "bound", "kind": "value", "configured": slack, **sig0}, f"bound() = {dict(b)} but the configured slack is {slack}", detail))
             # r = 1: '+' entries coincide with MetricFrame by_group - overall of the matching rate
             if ratio[0] == ratio[1] and kind in ("DP", "TPR", "FPR", "ERP"):
                 import sklearn.metrics as skm
